@@ -12,6 +12,7 @@ From XcpModel Require Import Base Meta Walker Ops ConcBlock ConcFile ConcOutcome
 From XcpProofs Require Import OpsProofs ConcBlockProofs ConcFileProofs ConcOutcomeProofs.
 From XcpModel Require Import Extracted.
 From XcpProofs Require Import ExtractedOk.
+From Coq Require Import Permutation.
 Local Open Scope nat_scope.
 
 Theorem C18_fsync_is_last_action : forall fc src dst e l,
@@ -55,6 +56,29 @@ Qed.
 Theorem C18_no_handle_survives : forall W Q ops s, reachable W Q ops s -> final s = true -> b_open s = [].
 Proof. intros W Q ops s Hr Hf. eapply final_state_closed; eauto. eapply inv_reachable; eauto. Qed.
 
+(* both layers together: under EVERY schedule of parblock (any W, Q), the system calls issued on a
+   copied file h are exactly Ops.copy_actions for SOME completion order bs of its blocks; hence with
+   --fsync the last of them is the fsync, nothing before it is one, and every sizing / clone / data
+   call lies before the finalisation part *)
+Theorem C18_fsync_last_in_every_schedule : forall W Q ops s h js fc src dst e0 blk,
+  reachable W Q ops s -> final s = true -> nth_error ops h = Some (OCopy js) ->
+  ce_dst_exists e0 && ce_same_file e0 = false -> ce_cloned e0 = false -> c_fsync fc = true ->
+  exists bs A F',
+    Permutation bs js /\
+    flat_map (ev_actions fc src dst e0 blk) (events_of h (b_ev s)) = (A ++ F') ++ [AFsync (KDst dst)] /\
+    existsb is_fsync (A ++ F') = false /\ existsb is_meta A = false /\ existsb data_or_sizing F' = false.
+Proof.
+  intros W Q ops s h js fc src dst e0 blk Hr Hf Hn Hsame Hcl Hfs.
+  destruct (parblock_any_schedule W Q ops s Hr Hf) as [H _]. specialize (H h _ Hn).
+  destruct (phase_of h (b_ev s)) as [|bs0|bs| |] eqn:Eph; try contradiction. cbn [outcome_ok] in H.
+  destruct (history_is_copy_actions fc src dst e0 blk h (b_ev s) bs Eph Hsame Hcl) as [Hacts Hok].
+  destruct (copy_actions fc src dst (with_writes e0 (map blk (rev bs)))) as [l ok] eqn:Ec. cbn [fst snd] in *. subst ok.
+  destruct (copy_actions_order fc src dst _ l Ec) as (A & F & Hl & HA & HF & Hfsync & _).
+  destruct (Hfsync Hfs) as (F' & HF' & Hno).
+  exists bs, A, F'. split; [exact H|]. rewrite Hacts, Hl, HF', app_assoc. split; [reflexivity|]. split; [exact Hno|].
+  split; [exact HA|]. rewrite HF', existsb_app in HF. apply Bool.orb_false_iff in HF. tauto.
+Qed.
+
 Example C18_nonvacuous :
   exists l, copy_actions (mkFin false false false true) [] [] (mkEnv false false None 10 false true [(0, 4); (4, 6)]%N 0) = (l, true) /\
             last l (AStat (KSrc [])) = AFsync (KDst []).
@@ -71,3 +95,4 @@ Print Assumptions C18_every_file_finalised_once_parblock.
 Print Assumptions C18_every_file_finalised_once_parfile.
 Print Assumptions C18_no_handle_survives.
 Print Assumptions C18_src_fsync_is_last_step.
+Print Assumptions C18_fsync_last_in_every_schedule.
